@@ -32,6 +32,8 @@ def execute(call, backend):
     if backend is not None:
         kw["backend"] = backend
     tensors = [np.array(t, copy=True) if isinstance(t, np.ndarray) else t for t in call["tensors"]]
+    for pre in call.get("pre", ()):  # calls made before this one (their outcome does not matter)
+        execute(pre, backend)
     try:
         r = f(call["desc"], *tensors, **kw)
         if call.get("post"):
@@ -111,7 +113,7 @@ def run(spec, out):
 def finalize(agg, tier, seed):
     c = agg.counters
     rules = ["implicit-vs-explicit-output", "number-vs-named-axis", "unbracketed-vs-bracketed", "ellipsis-vs-written-out", "extra-spaces", "rearrange-vs-id", "adjacent-brackets-merged",
-             "anonymous-vs-named-ellipsis", "scalar-vs-tuple-size", "keepdims-vs-parentheses", "unit-coordinate-bracket", "nested-arrow", "argfind-unit-bracket", "ambiguous-implicit-output-rejected", "nested-comma"]
+             "anonymous-vs-named-ellipsis", "scalar-vs-tuple-size", "keepdims-vs-parentheses", "keepdims-after-plain-call", "unit-coordinate-bracket", "nested-arrow", "argfind-unit-bracket", "ambiguous-implicit-output-rejected", "nested-comma"]
     for r in rules:
         if c.get(f"agree:{r}", 0) < 5:
             agg.inconclusive.append(f"rule {r}: only {c.get(f'agree:{r}', 0)} agreeing pairs observed")
